@@ -481,6 +481,62 @@ def write_gen(table, mut):
     return ok, out
 
 
+def ro_model_check(report, rnd, n_hist):
+    """Correspondence of the proved read-only model (FS/ReadOnly.v, ro_mem_run): a history is run on a real
+    MemoryFS for its first k calls, the rest on fs.wrap.read_only(that MemoryFS); every outcome and the
+    storage tree after every call must equal the extracted model's."""
+    import genhist
+    from fs.memoryfs import MemoryFS
+    from fs.wrap import read_only
+    lines, got, hists = [], [], []
+    for _ in range(n_hist):
+        g = genhist.Gen(rnd, odd=0.1, spell=0.2)
+        h = g.history(rnd.randint(6, 22))
+        k = rnd.randint(0, max(0, len(h) - 3))
+        mem = MemoryFS()
+        ro = read_only(mem)
+        rec = []
+        for i, o in enumerate(h):
+            out = fsops.execute(mem if i < k else ro, o)
+            if i >= k:
+                rec.append(out + "#" + fsops.snap_memoryfs(mem))
+        toks = []
+        for o in h:
+            toks += fsops.encode(o)
+        lines.append("fs ro %s %s" % (k if k else "0", " ".join(toks)))
+        got.append(rec)
+        hists.append((k, h))
+    model = common.run_model_parallel(lines, chunk=400)
+    bad = []
+    steps = 0
+    refused = 0
+    for hi, rec in enumerate(got):
+        exp = model[hi].split(" ") if model[hi] else []
+        steps += len(rec)
+        refused += sum(1 for r in rec if r.startswith("err:ResourceReadOnly"))
+        if exp != rec:
+            j = next((i for i in range(min(len(exp), len(rec))) if exp[i] != rec[i]), min(len(exp), len(rec)))
+            bad.append((hi, j, exp[j] if j < len(exp) else None, rec[j] if j < len(rec) else None))
+    n_vm, vm_mism = common.vm_crosscheck(lines[:200], model[:200], "C04", limit=40)
+    for hi, j, e, gq in bad[:5]:
+        k, h = hists[hi]
+        o = h[k + j] if k + j < len(h) else None
+        jop = [x.decode("latin-1") if isinstance(x, bytes) else x for x in o] if o else None
+        tree_changed = False
+        if gq and e and "#" in gq and "#" in e:
+            tree_changed = gq.split("#", 1)[1] != e.split("#", 1)[1]
+        report.violation(dict(kind="read-only-breach" if tree_changed else "correspondence-broken",
+                              correspondence="real read_only(MemoryFS) vs FS/ReadOnly.v ro_mem_run (extracted)",
+                              setup_calls=k, history=[[x.decode("latin-1") if isinstance(x, bytes) else x for x in oo] for oo in h[:k + j + 1]],
+                              call=jop, model=e, implementation=gq, theorem="Props/C04.v C04_ro_history_unchanged"),
+                         no_input=not tree_changed)
+    if vm_mism:
+        report.violation(dict(kind="correspondence-broken", correspondence="extraction vs vm_compute", detail=vm_mism[:3]),
+                         no_input=True)
+    return dict(ro_model_histories=n_hist, ro_model_steps=steps, ro_model_refused_steps=refused,
+                ro_model_mismatches=len(bad), ro_model_vm_crosschecked=n_vm)
+
+
 def run_c04(report):
     rnd = random.Random(report.seed + 4)
     methods = public_methods()
@@ -535,16 +591,19 @@ def run_c04(report):
     if not gen_ok:
         report.violation(dict(kind="proof-broken", what="generated dispatch table does not compile", log=gen_out[-1500:],
                               theorem="Gen/Dispatch_gen.v"), no_input=True)
+    ro_cov = ro_model_check(report, rnd, 1500 if report.tier == "thorough" else 300)
     nontrivial = set((r["construction"], r["method"], r["verdict"]) for r in results)
     cov = dict(evaluations=len(results), distinct_nontrivial=len(nontrivial),
-               rule="every public name of FS by reflection (%d methods) x 6 synthesised argument variants x %d read-only "
+               rule="every public name of FS by reflection (%d methods) x 14 synthesised argument variants x %d read-only "
                     "constructions, then write/writelines/truncate on returned file objects, mutators on returned "
                     "sub-filesystems, glob(...).remove(); the storage underneath is snapshotted (tree, bytes, mtimes) "
                     "around each call; mutating = changes a writable MemoryFS twin; non-trivial = distinct "
                     "(construction, method, verdict)" % (len(methods), len(cons)),
                samples=results[:3] + results[len(results) // 2: len(results) // 2 + 2],
                mutating_methods=sorted(k for k, v in mut.items() if v), disagreements_checked=len(bad),
-               dispatch_table_rows=len(table), traces_validated_against_impl=len(results) - len(bad))
+               dispatch_table_rows=len(table),
+               traces_validated_against_impl=len(results) - len(bad) + ro_cov["ro_model_histories"] - ro_cov["ro_model_mismatches"])
+    cov.update(ro_cov)
     return report.finish(proof, cov, assumptions=[
         "arguments are synthesised from parameter names; 'mutating' is decided on a writable MemoryFS twin"])
 
